@@ -245,6 +245,14 @@ class C17(Property):
                     return
             kw = {"threshold": spec["threshold"]}
             ctx.cls(f"thr:{spec['threshold']}")
+            if drops and not cellwise and spec["seed"] % 4 == 0:
+                # every documented option of the droplet search is handed through: refinement with a minimal radius that lies between
+                # the cluster radius and the fitted radius of the smallest droplet (so that the two filters disagree about it)
+                ru = sorted(float(d.radius) for d in locate_droplets(ScalarField(grid, data), **kw))
+                rf = sorted(float(d.radius) for d in locate_droplets(ScalarField(grid, data), refine=True, **kw))
+                if ru and len(ru) == len(rf) and abs(ru[0] - rf[0]) > 1e-6 * ru[0]:
+                    kw.update(refine=True, minimal_radius=0.5 * (ru[0] + rf[0]))
+                    ctx.cls("refine+minimal-radius")
             found = locate_droplets(ScalarField(grid, data), **kw)
             n = len(found)
             if n == 0:
@@ -253,6 +261,8 @@ class C17(Property):
             l0 = get_length_scale(ScalarField(grid, data), "droplet_detection", **kw)
             exp = (float(np.prod(L)) / n) ** (1 / dim)
             ctx.require(rel_ok(l0, exp, 1e-12), "droplets:definition", f"l = {l0}, expected (V/n)^(1/d) = {exp} with n = {n}")
+            if kw.get("refine"):
+                return  # a fit with fixed intensity levels and a fixed minimal radius is covariant under neither map: only the definition is judged
             l1 = get_length_scale(ScalarField(grid_s, data), "droplet_detection", **kw)
             ctx.require(rel_ok(l1, s * l0, 1e-12), "droplets:stretch", f"l(stretch {s}) = {l1}, expected {s * l0}")
             c = abs(spec["scale"])
